@@ -22,3 +22,14 @@ def c09_outer(x):
 
 def c09_plain(x):
     return (x * 0.1 + np.array([0.1, 0.2, 0.3]) + 1.0 / 3.0) * 0.7
+
+
+@onnx_function
+def c04_inner(a, b):
+    import jax.numpy as jnp
+
+    return jnp.concatenate([a * 2, b + 1], axis=0).sum(axis=0) + a.shape[0] * 10 + b.shape[0]
+
+
+def c04_outer(a, b):
+    return c04_inner(a, b) * 3 + c04_inner(b, a)
